@@ -822,4 +822,135 @@ theorem missing_statement_dynamic_false :
 theorem cycle_statement_dynamic_false :
     witnessW6.check = [] ∧ witnessW6.dynamicCheck = [⟨.cycle, 0, 2⟩] := by decide
 
+
+/-! ## Non-vacuity: every hypothesis set above is satisfiable on a concrete, non-trivial database -/
+
+/-- scopes: 0 root, 1 nested in 0, 2 nested in 1, 3 nested in 0 (a sibling of 1).
+    handler 4 (scope 2) → `c2` (scope 1) → transient `c1` (scope 1) → `c0` (root); `c2` also wants type 5,
+    whose only constructor `c3` is registered against the sibling blueprint 3. -/
+def exMissing : DB :=
+  { parent := [0, 0, 1, 0], tys := List.replicate 6 defaultTy,
+    comps := [⟨.ctor, 0, 0, .request, false, [], false, 0⟩,
+              ⟨.ctor, 1, 1, .transient, false, [⟨0, .ref⟩], false, 1⟩,
+              ⟨.ctor, 1, 2, .request, false, [⟨1, .val⟩, ⟨5, .ref⟩], false, 2⟩,
+              ⟨.ctor, 3, 5, .request, false, [], false, 3⟩,
+              ⟨.handler, 2, 0, .request, false, [⟨2, .ref⟩], false, 4⟩],
+    routes := [⟨4, [.lit 0], [0], false⟩], pparams := [] }
+
+example : exMissing.WFScopes := by
+  intro s hs
+  unfold DB.parentOf exMissing
+  match s, hs with
+  | 1, _ => decide
+  | 2, _ => decide
+  | 3, _ => decide
+  | n + 4, _ => simp [List.getD]
+example : exMissing.anc 2 = [2, 1, 0] ∧ exMissing.lookup 2 0 = some 0 ∧ exMissing.lookup 2 5 = none ∧
+    exMissing.lookup 3 5 = some 3 := by decide
+example : exMissing.Reachable 2 := ⟨4, by decide, by decide, (DB.Needs.refl _ _).step (by decide)⟩
+example : ⟨.missing, 2, 1⟩ ∈ exMissing.detectMissing :=
+  missing_complete exMissing ⟨4, by decide, by decide, (DB.Needs.refl _ _).step (by decide)⟩
+    (x := ⟨5, .ref⟩) (by decide) (by decide)
+example : Violation exMissing :=
+  .missing (c := 2) (k := 1) (x := ⟨5, .ref⟩)
+    ⟨4, by decide, by decide, (DB.Needs.refl _ _).step (by decide)⟩ (by decide) (by decide)
+example : exMissing.check = [⟨.missing, 2, 1⟩] := by decide
+
+/-- handler 4 (scope 1) → `c0` → ring `c1 → c2 → c3 → c1` of length 3 registered at the root. -/
+def exCycle : DB :=
+  { parent := [0, 0], tys := List.replicate 4 defaultTy,
+    comps := [⟨.ctor, 1, 0, .request, false, [⟨1, .ref⟩], false, 0⟩,
+              ⟨.ctor, 0, 1, .transient, false, [⟨2, .ref⟩], false, 1⟩,
+              ⟨.ctor, 0, 2, .request, false, [⟨3, .ref⟩], false, 2⟩,
+              ⟨.ctor, 0, 3, .request, false, [⟨1, .ref⟩], false, 3⟩,
+              ⟨.handler, 1, 0, .request, false, [⟨0, .ref⟩], false, 4⟩],
+    routes := [⟨4, [.lit 0], [0], false⟩], pparams := [] }
+
+example : Violation exCycle :=
+  .cycle (c := 2)
+    ⟨4, by decide, by decide, (((DB.Needs.refl _ _).step (k := 0) (by decide)).step (k := 1) (by decide)).step (k := 2) (by decide)⟩
+    (.cons (b := 3) (by decide) (.cons (b := 1) (by decide) (.single (by decide))))
+example : exCycle.check = [⟨.cycle, 1, 3⟩] := by decide
+example : HasCycle [[1], [2], [0], []] := ⟨0, .cons (b := 1) (by decide) (.cons (b := 2) (by decide) (.single (by decide)))⟩
+example : findCycles [[1], [2], [0, 2], []] = [[0, 1, 2], [2]] := by decide
+
+/-- the finding's witness satisfies the hypotheses of `singletonDeps_complete` (chain of length 1). -/
+example : Violation witnessW1 :=
+  .singletonDep (s := 2) (i := 1) (r := 0) (by decide) (by decide) (by decide)
+    ((ReachN.refl 2).step (c := 1) (by decide) (by decide)) (by decide) (by decide)
+
+/-- singleton type 0 registered (same constructor, `fn` 7) against the sibling blueprints 1 and 2;
+    `&mut` of the singleton in handler 3; non-`Send` singleton type 1 taken by value by handler 3;
+    clone-if-necessary on the non-`Clone` type 2 whose constructor also takes `&mut`;
+    observer 6 → transient `c7` → fallible request-scoped `c8`. -/
+def exMany : DB :=
+  { parent := [0, 0, 0],
+    tys := [defaultTy, ⟨false, false, false, true⟩, defaultTy, defaultTy, defaultTy],
+    comps := [⟨.ctor, 1, 0, .singleton, false, [], false, 7⟩,
+              ⟨.ctor, 2, 0, .singleton, false, [], false, 7⟩,
+              ⟨.ctor, 0, 1, .singleton, false, [], false, 1⟩,
+              ⟨.handler, 1, 0, .request, false, [⟨0, .mut⟩, ⟨1, .val⟩], false, 2⟩,
+              ⟨.ctor, 0, 2, .request, true, [⟨1, .mut⟩], false, 3⟩,
+              ⟨.handler, 2, 0, .request, false, [⟨2, .ref⟩], false, 4⟩,
+              ⟨.observer, 0, 0, .request, false, [⟨3, .ref⟩], false, 5⟩,
+              ⟨.ctor, 0, 3, .transient, false, [⟨4, .ref⟩], false, 6⟩,
+              ⟨.ctor, 0, 4, .request, false, [], true, 8⟩],
+    routes := [⟨3, [.lit 0, .param 1], [0, 1], false⟩, ⟨5, [.lit 0, .param 2], [], true⟩],
+    pparams := [] }
+
+example : Violation exMany :=
+  .singletonTwice (t := 0) (s1 := 1) (s2 := 2) (c1 := 0) (c2 := 1) (by decide) (by decide) (by decide)
+    (by decide) (by decide) (by decide) (by decide) (by decide)
+example : Violation exMany :=
+  .mutInjection (c := 3) (k := 0) (j := 0) (x := ⟨0, .mut⟩) ⟨3, by decide, by decide, DB.Needs.refl _ _⟩
+    (by decide) (by decide) (by decide) (Or.inl (by decide))
+example : Violation exMany :=
+  .notSendSync (i := 3) (c := 2) ⟨3, by decide, by decide, DB.Needs.refl _ _⟩ (by decide) (by decide)
+    (by decide) (Or.inl (by decide))
+example : Violation exMany :=
+  .singletonByValue (i := 3) (k := 1) (c := 2) (x := ⟨1, .val⟩) ⟨3, by decide, by decide, DB.Needs.refl _ _⟩
+    (by decide) (by decide) (by decide) (by decide) (by decide) (by decide) (by decide)
+example : Violation exMany :=
+  .mutOnConstructor (c := 4) (k := 0) (x := ⟨1, .mut⟩) (by decide) (by decide) (by decide) (by decide)
+example : Violation exMany := .cloneNotClone (c := 4) (by decide) (by decide) (by decide) (by decide)
+example : Violation exMany :=
+  .observerFallible (o := 6) (c := 8) (by decide) (by decide)
+    (.through (i := 7) (.direct (by decide)) (by decide) (by decide) (by decide)) (by decide) (by decide) (by decide)
+/-- `GET|POST /a/{x}` next to `ANY /a/{y}` (non-standard methods included): same shape, different names. -/
+example : Violation exMany :=
+  .routes (k1 := 0) (k2 := 1) (r1 := ⟨3, [.lit 0, .param 1], [0, 1], false⟩) (r2 := ⟨5, [.lit 0, .param 2], [], true⟩)
+    (by decide) (by decide) (by decide) ⟨0, by decide, by decide⟩ (Or.inr (by decide))
+example : exMany.stage1 = [⟨.routePathConflict, 1, 0⟩] ∧
+    exMany.stage2 = [⟨.mutInput, 4, 0⟩] ∧
+    exMany.stage3 = [⟨.mutSingleton, 3, 0⟩, ⟨.mutSingleton, 4, 0⟩, ⟨.singletonOnce, 0, 2⟩,
+      ⟨.observerFallible, 6, 8⟩, ⟨.cloneNotClone, 4, 2⟩] ∧
+    exMany.stage4 = [⟨.notSend, 2, 1⟩, ⟨.singletonByValue, 3, 1⟩] := by decide
+
+/-- route 0: `/a/{x}` handled by `h1(&PathParams<P>)`... through constructor `c0(&PathParams<P>)`;
+    `P` has the fields `x` (1) and `zz` (7). Type 1 is `PathParams<P>`, built by the framework's `c2`. -/
+def exPathParams : DB :=
+  { parent := [0], tys := List.replicate 2 defaultTy,
+    comps := [⟨.ctor, 0, 0, .request, false, [⟨1, .ref⟩], false, 0⟩,
+              ⟨.handler, 0, 0, .request, false, [⟨0, .ref⟩], false, 1⟩,
+              ⟨.ctor, 0, 1, .request, false, [], true, 2⟩],
+    routes := [⟨1, [.lit 0, .param 1], [0], false⟩], pparams := [⟨1, [1, 7]⟩] }
+
+example : Violation exPathParams :=
+  .pathParam (k := 0) (c := 2) (f := 7) (r := ⟨1, [.lit 0, .param 1], [0], false⟩) (pp := ⟨1, [1, 7]⟩)
+    (by decide) (by decide) (by decide)
+    (((DB.Needs.refl _ 1).step (k := 0) (by decide)).step (k := 2) (by decide)) (by decide) (by decide)
+    (by decide) (by decide)
+example : exPathParams.check = [⟨.pathParam, 0, 1⟩] := by decide
+
+/-- `c08_rejected_never_compiled` on a concrete build and file system (Thm/C09's `exBuild`/`exFS`). -/
+example : (Gen.generate (Gen.exBuild 1) .update Gen.exFS).exit = 1 ∧
+    (Gen.generate (Gen.exBuild 1) .update Gen.exFS).fs = Gen.exFS :=
+  let h := c08_rejected_never_compiled exPathParams
+    (.pathParam (k := 0) (c := 2) (f := 7) (r := ⟨1, [.lit 0, .param 1], [0], false⟩) (pp := ⟨1, [1, 7]⟩)
+      (by decide) (by decide) (by decide)
+      (((DB.Needs.refl _ 1).step (k := 0) (by decide)).step (k := 2) (by decide)) (by decide) (by decide)
+      (by decide) (by decide))
+    (Gen.exBuild 1) .update Gen.exFS (by decide)
+  ⟨h.1, h.2.2.1⟩
+
 end Pxv.Rules
